@@ -13,8 +13,8 @@ DRIVER = os.path.join(VERIF, "driver", "target", "release", "ckc-facts")
 
 PROFILES = {
     # name -> extra rustc flags
-    "checked": "-Coverflow-checks=on",
-    "unchecked": "-Coverflow-checks=off",
+    "checked": "-Cdebug-assertions=on -Coverflow-checks=on",       # the dev profile: debug_assert! and overflow checks present
+    "unchecked": "-Cdebug-assertions=off -Coverflow-checks=off",   # the release profile
 }
 
 
@@ -79,7 +79,7 @@ def extract(profile="checked", repo=None):
         env.update({
             "CARGO_NET_OFFLINE": "true",
             "LD_LIBRARY_PATH": sysroot_lib() + os.pathsep + env.get("LD_LIBRARY_PATH", ""),
-            "RUSTFLAGS": "-Zmir-opt-level=0 -Awarnings -Cdebug-assertions=off " + PROFILES[profile],
+            "RUSTFLAGS": "-Zmir-opt-level=0 -Awarnings " + PROFILES[profile],
             "RUSTC_WORKSPACE_WRAPPER": DRIVER,
             "CARGO_TARGET_DIR": tdir,
             "CKC_FACTS_OUT": tmp,
